@@ -176,3 +176,71 @@ Proof.
   - intros items. destruct (make_ok h items) as (h' & l' & E & F). exists h', l'. split; auto. eapply fresh_rep; eauto.
   - intros c. destruct (comp_ok h c) as (h' & l' & E & F). exists h', l'. split; auto. eapply fresh_rep; eauto.
 Qed.
+
+(* ------------------------------------------------------------------ the loop-local leak, for every number of passes *)
+Lemma live_cells_app2 : forall a b, live_cells (a ++ b) = live_cells a + live_cells b.
+Proof. induction a as [|x r IH]; intros; simpl; auto. rewrite IH. lia. Qed.
+
+Lemma live_blocks_app2 : forall a b, live_blocks (a ++ b) = live_blocks a + live_blocks b.
+Proof. intros. unfold live_blocks. now rewrite filter_app, app_length. Qed.
+
+Definition blk3 : block := mkblock [0; 2; 4]%Z true.
+
+Lemma live_repeat : forall n, live_cells (repeat blk3 n) = 3 * n /\ live_blocks (repeat blk3 n) = n.
+Proof.
+  induction n as [|n [IH1 IH2]]; simpl; auto. split; [lia|].
+  unfold live_blocks in *. simpl. now rewrite IH2.
+Qed.
+
+Lemma leak_pass_fw : forall h,
+  run_pass leak_comp_body (mkf h [] []) = Safe (mkf (h ++ [blk3]) [] [], []).
+Proof.
+  intros h. unfold run_pass, leak_comp_body, f_block, f_exec, comp_list. simpl f_heap.
+  rewrite from_range_spec. reflexivity.
+Qed.
+
+Lemma leak_passes_fw : forall n h,
+  run_passes leak_comp_body (mkf h [] []) n = Safe (mkf (h ++ repeat blk3 n) [] []).
+Proof.
+  induction n as [|n IH]; intros h; simpl.
+  - now rewrite app_nil_r.
+  - rewrite leak_pass_fw. cbn [rbind fst]. rewrite IH. now rewrite <- app_assoc.
+Qed.
+
+Definition leak_vals : list Z := [0; 2; 4]%Z.
+
+Definition PJ (pst : pstate) : Prop :=
+  p_glob pst = [] /\ (p_loc pst = [] \/ exists o, p_loc pst = [(0%Z, o)]).
+
+Lemma leak_pass_py : forall pst, PJ pst ->
+  exists pst', py_pass leak_comp_body pst = POk (pst', []) /\ PJ pst' /\ p_live pst' = 3.
+Proof.
+  intros [objs gl lo] (Hg & Hl). simpl in Hg, Hl. subst gl.
+  assert (V : py_range (mkcomp 0 3 1 2 0) = leak_vals) by (vm_compute; reflexivity).
+  unfold py_pass, leak_comp_body. cbn [p_block p_exec c_step]. simpl Z.eqb. cbv iota.
+  cbn [pbind]. rewrite V. eexists. split; [reflexivity|].
+  destruct Hl as [->|(o & ->)]; unfold p_new, p_bind, has, PJ, p_live, p_obj; simpl;
+    (split; [split; eauto|]); rewrite app_nth2 by lia; rewrite Nat.sub_diag; reflexivity.
+Qed.
+
+Lemma leak_passes_py : forall n pst, PJ pst ->
+  exists pst', py_passes leak_comp_body pst n = POk pst' /\ PJ pst' /\ (n >= 1 -> p_live pst' = 3).
+Proof.
+  induction n as [|n IH]; intros pst J; cbn [py_passes].
+  - exists pst. split; [reflexivity|]. split; [exact J|]. intros H. exfalso. lia.
+  - destruct (leak_pass_py pst J) as (p1 & E & J1 & L1). rewrite E. cbn [pbind fst].
+    destruct (IH p1 J1) as (p2 & E2 & J2 & L2). exists p2. split; auto. split; auto.
+    intros _. destruct n; [|apply L2; lia]. simpl in E2. injection E2 as <-. exact L1.
+Qed.
+
+(* one block of 3 cells leaked per pass, for EVERY number of passes, while Python's live data stays 3 *)
+Lemma leak_comp_local_all : forall n,
+  exists st pst, run_fw [] leak_comp_body n = Safe st /\ run_py [] leak_comp_body n = POk pst /\
+                 f_live_cells st = 3 * n /\ f_live_blocks st = n /\ (n >= 1 -> p_live pst = 3).
+Proof.
+  intros n. unfold run_fw, run_setup, run_py, py_setup. simpl f_block. simpl p_block. cbn [rbind pbind fst].
+  unfold f_init. rewrite leak_passes_fw.
+  destruct (leak_passes_py n p_init) as (pst & E & _ & L). { unfold PJ, p_init. simpl. auto. }
+  exists (mkf ([] ++ repeat blk3 n) [] []), pst. simpl app.
+  destruct (live_repeat n) as [A B]. repeat split; auto.
+Qed.
